@@ -74,6 +74,7 @@ type wopts struct {
 	Before    bool   // InterceptBefore: value.a += old.a + 10
 	After     bool   // InterceptAfter: new.b = "after:" + first letter of old.b
 	WriteTime bool
+	MoreU     bool // "more update paths": a is added to the update mask the call set (a nil mask stays "everything")
 	MoreW     bool // this write alone may also write b (WithMoreWritablePaths): the resource's own writable fields stay what they are
 	// collection only
 	Create       bool
@@ -99,12 +100,26 @@ func (o wopts) String() string {
 	for _, f := range []struct {
 		on bool
 		n  string
-	}{{o.Before, "before"}, {o.After, "after"}, {o.WriteTime, "writeTime"}, {o.MoreW, "alsoWritable=b"}, {o.Create, "createIfAbsent"}, {o.ExpectAbsent, "expectAbsent"}, {o.AllowMissing, "allowMissing"}, {o.GenID, "genID"}} {
+	}{{o.Before, "before"}, {o.After, "after"}, {o.WriteTime, "writeTime"}, {o.MoreU, "alsoUpdate=a"}, {o.MoreW, "alsoWritable=b"}, {o.Create, "createIfAbsent"}, {o.ExpectAbsent, "expectAbsent"}, {o.AllowMissing, "allowMissing"}, {o.GenID, "genID"}} {
 		if f.on {
 			p = append(p, f.n)
 		}
 	}
 	return "[" + strings.Join(p, ",") + "]"
+}
+
+// mask: the update mask that counts for the call ("more update paths" adds a to a mask that was set)
+func (o wopts) mask() string {
+	if !o.MoreU || o.Mask == "nil" || o.Mask == "zz" {
+		return o.Mask
+	}
+	switch o.Mask {
+	case "{}", "a":
+		return "a"
+	case "b":
+		return "a,b"
+	}
+	return o.Mask // a,b
 }
 
 // holds: every precondition the call brought is satisfied by the stored value
@@ -192,6 +207,9 @@ func (o wopts) build(c *cb) []resource.WriteOption {
 	if o.WriteTime {
 		w = append(w, resource.WithWriteTime(t0.Add(-time.Hour)))
 	}
+	if o.MoreU {
+		w = append(w, resource.WithMoreUpdatePaths("default_int32"))
+	}
 	if o.MoreW {
 		w = append(w, resource.WithMoreWritablePaths("default_string"))
 	}
@@ -246,8 +264,8 @@ func (m *model) validate(o wopts) codes.Code {
 	if o.Mask == "zz" {
 		return codes.InvalidArgument
 	}
-	if m.writable == "a" && o.Mask != "nil" && o.Mask != "{}" {
-		for _, f := range strings.Split(o.Mask, ",") {
+	if mk := o.mask(); m.writable == "a" && mk != "nil" && mk != "{}" {
+		for _, f := range strings.Split(mk, ",") {
 			if f != "a" && !(f == "b" && o.MoreW) {
 				return codes.InvalidArgument
 			}
@@ -271,8 +289,8 @@ func (m *model) change(old val, v val, o wopts) (val, codes.Code) {
 		v.a += old.a + 10
 	}
 	n := old
-	if o.Mask != "{}" {
-		inMask := func(f string) bool { return o.Mask == "nil" || strings.Contains(","+o.Mask+",", ","+f+",") }
+	if mk := o.mask(); mk != "{}" {
+		inMask := func(f string) bool { return mk == "nil" || strings.Contains(","+mk+",", ","+f+",") }
 		inW := func(f string) bool { return m.writable == "" || m.writable == f || (f == "b" && o.MoreW) }
 		if inMask("a") && inW("a") {
 			n.a = v.a
@@ -697,6 +715,7 @@ func optionCombos(thorough, collection, del bool) []wopts {
 		{"after", []func(*wopts){func(o *wopts) { o.After = true }}},
 		{"writeTime", []func(*wopts){func(o *wopts) { o.WriteTime = true }}},
 		{"alsoWritable", []func(*wopts){func(o *wopts) { o.MoreW = true }}},
+		{"alsoUpdate", []func(*wopts){func(o *wopts) { o.MoreU = true }}},
 	}
 	if collection {
 		dims = append(dims,
